@@ -90,6 +90,9 @@ func (c13Sim) Gen(prop, tier string, r *rand.Rand) interface{} {
 			a.Kind = "writer"
 		case x < 7:
 			a.Kind = "reader"
+			if prop == "C13" && chance(r, 0.3) {
+				a.Kind = "clireader"
+			}
 		case x < 8 && chance(r, 0.7):
 			a.Kind = "creator"
 			a.Sessions = 1
@@ -97,7 +100,7 @@ func (c13Sim) Gen(prop, tier string, r *rand.Rand) interface{} {
 			a.Kind = "abandoner"
 		default:
 			a.Kind = "badopen"
-			a.Hostile = pick(r, "short", "badheader", "dir", "rocreate", "shortbody", "shortbody", "flock-eintr", "flock-enolck", "fsync-eio")
+			a.Hostile = pick(r, "short", "badheader", "dir", "rocreate", "shortbody", "shortbody", "flock-eintr", "flock-enolck", "fsync-eio", "create-invalid")
 			a.Sessions = int(between(r, 1, 2))
 			if prop == "C05" {
 				a.Kind, a.Hostile = "reader", ""
@@ -195,6 +198,9 @@ func (c13Sim) Run(e *Env, ci interface{}) {
 	}
 	db.Sync()
 	db.Close()
+	// reading commands address the file through a source base directory
+	os.MkdirAll(filepath.Join(e.Dir, "src"), 0o755)
+	os.Symlink(path, filepath.Join(e.Dir, "src", "shared.wsp"))
 	// the process has used WithoutFlock before (an observer): options of one
 	// handle must not stick to later handles
 	if ob, oerr := wt.Open(path, wt.WithoutFlock()); oerr == nil {
@@ -361,6 +367,42 @@ func (c13Sim) Run(e *Env, ci interface{}) {
 					mu.Lock()
 					hist = append(hist, c13Op{client: ai, kind: "r", seen: g, call: call, ret: ret})
 					mu.Unlock()
+				case "clireader":
+					// a reading command (view of archive 0) run while sessions are going
+					// on: what it prints is the file as of a session boundary
+					cm := Cmd{Kind: "view", Src: "shared.wsp", Archive: 0, NoHeader: true}
+					command, tout, berr := buildCommand(e, cm, Now(), fmt.Sprintf("c13-%s-%d", name, k))
+					if berr != nil {
+						return
+					}
+					if tout != "" && tout != "-" {
+						os.Remove(tout)
+					}
+					if xerr := command.Execute(); xerr != nil {
+						viol("C13.session", "%s: view of the shared file failed: %v", name, xerr)
+						return
+					}
+					seen := map[string]bool{}
+					first := ""
+					for _, l := range parseOut(string(readFile(tout))) {
+						v, ok := l["val"]
+						if !ok || v == "NaN" {
+							continue
+						}
+						if first == "" {
+							first = v
+						}
+						seen[v] = true
+					}
+					if len(seen) > 1 {
+						viol("C13.no-mixture", "%s: a view command run while sessions were going on printed slots of %d different generations (%s and others): a mixture of pages from before and after a Sync", name, len(seen), first)
+						return
+					}
+					if len(seen) == 1 {
+						e.Probe("reading-command-during-sessions")
+					} else {
+						e.Note("reading-command-printed-no-value")
+					}
 				case "creator":
 					// a session that starts with Create: the new file is held from
 					// Create until Close like any other handle
@@ -399,6 +441,11 @@ func (c13Sim) Run(e *Env, ci interface{}) {
 					ndb.Sync()
 					// the session goes on for a while after its first Sync (the file
 					// can be opened by others from now on; they must wait)
+					if c.SchedSeed%2 == 0 {
+						// the session also pauses (an opener that polls or sleeps gets
+						// its turn while the creator still holds the file)
+						time.Sleep(300 * time.Millisecond)
+					}
 					for j := 0; j < 3; j++ {
 						ndb.FetchFromArchive(0, wt.Timestamp(now-1), wt.Timestamp(now), wt.Timestamp(now))
 						ndb.UpdatePointsForArchive([]wt.Point{{Time: wt.Timestamp(now), Value: wt.Value(2 + j)}}, 0, wt.Timestamp(now))
@@ -606,6 +653,17 @@ func c13BadOpen(e *Env, s *Sched, c *C13Case, a C13Actor, tag string, viol func(
 		}
 		_ = cerr2
 		what = "Sync whose fsync failed with EIO, then Close"
+	case "create-invalid":
+		// Create refused because of its arguments (xFilesFactor out of range, an
+		// archive list whose retentions do not grow): nothing may stay open or locked
+		if c.SchedSeed%2 == 0 {
+			_, err = wt.Create(p, c.Layout.wtList(), wt.Sum, 2.5)
+			what = "Create with xFilesFactor 2.5"
+		} else {
+			bad := wt.ArchiveInfoList{wt.NewArchiveInfo(10, 100), wt.NewArchiveInfo(20, 2)}
+			_, err = wt.Create(p, bad, wt.Sum, 0.5)
+			what = "Create with a second archive shorter than the first"
+		}
 	case "dir":
 		os.Mkdir(p, 0o755)
 		_, err = wt.Open(p, wt.WithOpenFileFlag(os.O_RDONLY))
